@@ -10,7 +10,8 @@ exception injected at every call position of `one_transition_spectrum` (purity u
 Clauses and oracles
   fourier   returned raw spectrum == direct half-sided Fourier sum of
             a(t) = sum_a |d_a|^2 exp(-g_a(t) - i w_a t [+ R_aaaa t]) evaluated AT THE RETURNED AXIS
-            (mc/refmodels/absorption_ref.py, no FFT, no index arithmetic)           tol Q 1e-8*peak
+            (mc/refmodels/absorption_ref.py, no FFT, no index arithmetic)
+                                             tol Q 1e-8*peak + 2|a(t_last)|dt (end-point rule)
             A failure is classified: key `fourier/axis-shift=+2/hfft-length` ONLY if the returned
             axis is the central cut of the 2Nt-point axis AND the returned data equal (class R,
             1e-10*peak) the reference evaluated on the grid really sampled by hfft's default
@@ -392,7 +393,10 @@ def eval_case(case, tier=None):
     resolved = bool(info["gap"] > 1e-6)           # non-degenerate exciton levels
     ref = AR.half_sided_sum(b.ta.data, a_t, x - info["wref"], dt)
     peak = float(numpy.max(numpy.abs(ref)))
-    okf, errf = approx(y, ref, TOL_F, scale=peak)
+    # the end-point rule of the quadrature is not prescribed by the property: a last sample
+    # counted once instead of twice changes the sum by at most |a(t_last)| dt
+    endpoint = 2.0 * float(numpy.abs(a_t[-1])) * dt
+    okf, errf = approx(y, ref, TOL_F + endpoint / max(peak, 1e-300), scale=peak)
     fourier = "ok"
     if resolved and not okf:
         # classification of the failure
@@ -638,7 +642,8 @@ def eval_dynamics(case, tier):
     # the captured signal rotates at the carrier (propagation in the rotating frame)
     ref = AR.half_sided_sum(b.ta.data, at, x - carrier, dt)
     peak = float(numpy.max(numpy.abs(ref)))
-    okf, errf = approx(y, ref, TOL_F, scale=peak)
+    endpoint = 2.0 * float(numpy.abs(at[-1])) * dt      # end-point rule not prescribed
+    okf, errf = approx(y, ref, TOL_F + endpoint / max(peak, 1e-300), scale=peak)
     if not okf:
         exp_axis = carrier + AR.expected_axis_offsets(nt, dt)
         cut = len(x) == nt and approx(x, exp_axis, TOL_R, scale=max(abs(carrier), 1.0))[0]
